@@ -67,6 +67,7 @@ struct Outcome {          // what a run produced, for oracles / differential com
   int signals = 0; sr::Result result; int result_ctx = -1;
   bool model_done = false; sr::Result model_result; int model_ctx = -1;
   std::string summary;    // canonical string of observable behaviour (poison differential)
+  std::string order;      // relative order and contexts of leaf starts / completions and of the root completion (C20 digest)
   int steps = 0; int stops_while_running = 0; int storage_switches = 0; bool fault_fired = false;
   int leaves_started = 0; bool had_deferred = false; bool nonvalue_leaf = false;
 };
